@@ -915,3 +915,292 @@ func EmbedNoise(rng *rand.Rand) (string, string) {
 		return sb.String(), "glued_words"
 	}
 }
+
+// ---- white space outside the ASCII blanks ----
+
+// SpaceSet is the alphabet of the white-space families.
+type SpaceSet struct {
+	// Plain: the ASCII blanks every tokeniser agrees on (also the regexp class \s).
+	Plain []rune
+	// Exotic: every other rune for which unicode.IsSpace holds (computed from the
+	// unicode tables: \v, U+0085, U+00A0, U+1680, U+2000..U+200A, U+2028, U+2029,
+	// U+202F, U+205F, U+3000). strings.Fields / strings.TrimSpace split on them.
+	Exotic []rune
+	// Near: blank or invisible runes that unicode.IsSpace does NOT accept but other
+	// tokenisers, editors and humans take for a separator (zero-width space, BOM,
+	// soft hyphen, word joiner, ASCII FS/GS/RS/US, fillers, ...). They glue tokens.
+	Near []rune
+}
+
+// Spaces computes the alphabet.
+func Spaces() SpaceSet {
+	ss := SpaceSet{Plain: []rune("\t\n\f\r ")}
+	plain := map[rune]bool{}
+	for _, r := range ss.Plain {
+		plain[r] = true
+	}
+	for r := rune(0); r <= unicode.MaxRune; r++ {
+		if unicode.IsSpace(r) && !plain[r] {
+			ss.Exotic = append(ss.Exotic, r)
+		}
+	}
+	for _, r := range []rune{0x08, 0x1C, 0x1D, 0x1E, 0x1F, 0x7F, 0x00AD, 0x034F, 0x061C, 0x115F, 0x1160, 0x17B4, 0x17B5, 0x180E,
+		0x200B, 0x200C, 0x200D, 0x200E, 0x200F, 0x2060, 0x2061, 0x2062, 0x2063, 0x2064, 0x2800, 0x3164, 0xFEFF, 0xFFA0} {
+		if !unicode.IsSpace(r) {
+			ss.Near = append(ss.Near, r)
+		}
+	}
+	return ss
+}
+
+func (ss SpaceSet) isPlain(r rune) bool {
+	for _, p := range ss.Plain {
+		if p == r {
+			return true
+		}
+	}
+	return false
+}
+
+// Spaced is a statement whose separators were rewritten by WithSpaces.
+type Spaced struct {
+	Q    Q
+	Text string
+	Mode string // one | all | after_kw | mixed | any
+	Near bool   // near-space runes were used as well (tokens are then glued for a unicode.IsSpace tokeniser)
+	// AfterKw: lower-case keyword tokens whose directly following rune is a non-plain separator rune.
+	AfterKw []string
+	// Runes: the non-plain separator runes written.
+	Runes []rune
+	// Sites: number of separators rewritten (tight = separators put where the statement had none).
+	Sites, Tight int
+}
+
+// sep builds one separator of 1..3 runes. pool chooses the non-plain rune.
+func (ss SpaceSet) sep(rng *rand.Rand, pool func() rune, used *[]rune) string {
+	var sb strings.Builder
+	put := func() {
+		r := pool()
+		sb.WriteRune(r)
+		if !ss.isPlain(r) {
+			*used = append(*used, r)
+		}
+	}
+	plain := func() { sb.WriteRune(ss.Plain[rng.Intn(len(ss.Plain))]) }
+	switch rng.Intn(8) {
+	case 0, 1, 2, 3:
+		put()
+	case 4:
+		for k := 2 + rng.Intn(2); k > 0; k-- {
+			put()
+		}
+	case 5:
+		put()
+		plain()
+	case 6:
+		plain()
+		put()
+	default:
+		put()
+		plain()
+		put()
+	}
+	return sb.String()
+}
+
+// WithSpaces rewrites the white space between the tokens of q (every statement
+// kind, after every keyword, identifier, literal and punctuation mark, in front
+// of the statement and behind it). The separators come from the exotic part of
+// unicode.IsSpace (near=false) or from exotic and near-space runes (near=true).
+// Modes: one = a single separator, all = every separator, after_kw = exactly the
+// separators that follow a keyword token (also where the statement had none, as
+// in count<sep>( ), mixed = every separator with probability 1/2, any = every
+// separator drawn from the whole of unicode.IsSpace (plain blanks included, so
+// \f and \r occur too).
+func (q Q) WithSpaces(rng *rand.Rand, ss SpaceSet, near bool) Spaced {
+	toks := append([]Tok(nil), q.Toks...)
+	// a trailing empty token carries the white space behind the statement
+	toks = append(toks, Tok{T: "", K: PUNCT})
+	sp := Spaced{Near: near}
+	sp.Mode = []string{"one", "one", "one", "all", "all", "after_kw", "after_kw", "mixed", "mixed", "any"}[rng.Intn(10)]
+	pool := func() rune {
+		if sp.Mode == "any" && rng.Intn(3) == 0 {
+			return ss.Plain[rng.Intn(len(ss.Plain))]
+		}
+		if near && rng.Intn(2) == 0 {
+			return ss.Near[rng.Intn(len(ss.Near))]
+		}
+		return ss.Exotic[rng.Intn(len(ss.Exotic))]
+	}
+	rewrite := func(i int) {
+		if toks[i].Pre == "" {
+			sp.Tight++
+		}
+		toks[i].Pre = ss.sep(rng, pool, &sp.Runes)
+		sp.Sites++
+	}
+	var seps []int // separators the statement has
+	for i := 1; i < len(toks)-1; i++ {
+		if toks[i].Pre != "" {
+			seps = append(seps, i)
+		}
+	}
+	switch sp.Mode {
+	case "one":
+		switch {
+		case rng.Intn(12) == 0:
+			rewrite(0)
+		case rng.Intn(12) == 0 || len(seps) == 0:
+			rewrite(len(toks) - 1)
+		default:
+			rewrite(seps[rng.Intn(len(seps))])
+		}
+	case "after_kw":
+		for i := 1; i < len(toks); i++ {
+			if toks[i-1].K == KW {
+				rewrite(i)
+			}
+		}
+	default: // all, mixed, any
+		for i := 0; i < len(toks); i++ {
+			existing := toks[i].Pre != ""
+			switch {
+			case sp.Mode == "mixed" && rng.Intn(2) == 0:
+			case existing:
+				rewrite(i)
+			case i == 0 || i == len(toks)-1:
+				if rng.Intn(3) == 0 {
+					rewrite(i)
+				}
+			case rng.Intn(6) == 0:
+				rewrite(i) // between glued tokens: count <sep> ( , o <sep> . _key
+			}
+		}
+	}
+	if sp.Sites == 0 {
+		rewrite(len(toks) - 1)
+	}
+	seen := map[string]bool{}
+	for i := 1; i < len(toks); i++ {
+		if toks[i-1].K != KW || toks[i].Pre == "" {
+			continue
+		}
+		first, _ := utf8.DecodeRuneInString(toks[i].Pre)
+		kw := strings.ToLower(toks[i-1].T)
+		if !ss.isPlain(first) && !seen[kw] {
+			seen[kw] = true
+			sp.AfterKw = append(sp.AfterKw, kw)
+		}
+	}
+	sort.Strings(sp.AfterKw)
+	sp.Q = Q{Toks: toks, Kind: q.Kind, Feats: q.Feats}
+	sp.Text = sp.Q.String()
+	return sp
+}
+
+// GenKind is Gen restricted to one statement kind (show_topics, show_partitions,
+// describe, explain, select).
+func GenKind(rng *rand.Rand, kind string) Q {
+	for {
+		if q := Gen(rng); q.Kind == kind {
+			return q
+		}
+	}
+}
+
+// StatementKinds lists the kinds Gen produces.
+var StatementKinds = []string{"show_topics", "show_partitions", "describe", "explain", "select"}
+
+// SpaceNoise returns half-structured texts around exotic and near-space runes:
+// token soup with such separators, a spaced statement cut at a random rune, a
+// keyword followed by such a separator repeated many times (nested EXPLAIN with
+// exotic blanks is one of them), texts made of blanks only, and statements with
+// such a rune inside a token. big selects long repetitions (thorough tier).
+func SpaceNoise(rng *rand.Rand, ss SpaceSet, big bool) (string, string) {
+	var used []rune
+	anyRune := func() rune {
+		switch rng.Intn(5) {
+		case 0:
+			return ss.Plain[rng.Intn(len(ss.Plain))]
+		case 1, 2:
+			return ss.Near[rng.Intn(len(ss.Near))]
+		default:
+			return ss.Exotic[rng.Intn(len(ss.Exotic))]
+		}
+	}
+	switch rng.Intn(6) {
+	case 0:
+		n := 1 + rng.Intn(25)
+		var sb strings.Builder
+		if rng.Intn(2) == 0 {
+			sb.WriteString(pick(rng, []string{"select", "SELECT * FROM t", "explain", "explain select", "show", "describe"}))
+			sb.WriteString(ss.sep(rng, anyRune, &used))
+		}
+		for i := 0; i < n; i++ {
+			w := soupWords[rng.Intn(len(soupWords))]
+			if rng.Intn(8) == 0 {
+				w = strings.ToUpper(w)
+			}
+			sb.WriteString(w)
+			if rng.Intn(6) != 0 {
+				sb.WriteString(ss.sep(rng, anyRune, &used))
+			}
+		}
+		return sb.String(), "space_soup"
+	case 1:
+		s := Gen(rng).WithSpaces(rng, ss, rng.Intn(2) == 0).Text
+		cut := rng.Intn(len(s) + 1)
+		for cut < len(s) && !utf8.RuneStart(s[cut]) {
+			cut++
+		}
+		if rng.Intn(4) == 0 && cut < len(s) {
+			cut++ // inside a rune: the text ends in a torn separator
+		}
+		return s[:cut], "space_truncated"
+	case 2:
+		maxRep := 200
+		if big {
+			maxRep = 4000
+		}
+		kw := Keywords[rng.Intn(len(Keywords))]
+		if rng.Intn(3) == 0 {
+			kw = "explain"
+		}
+		if rng.Intn(4) == 0 {
+			kw = strings.ToUpper(kw)
+		}
+		unit := kw + ss.sep(rng, anyRune, &used)
+		pre := pick(rng, []string{"", "", "select ", "select * from t ", "explain ", "explain\v", "select count("})
+		post := pick(rng, []string{"", "", " from t", "select * from t last 1h", ")", "select * from\u3000t"})
+		return pre + strings.Repeat(unit, 1+rng.Intn(maxRep)) + post, "space_repeat"
+	case 3:
+		n := rng.Intn(12)
+		var sb strings.Builder
+		for i := 0; i < n; i++ {
+			sb.WriteRune(anyRune())
+			if rng.Intn(8) == 0 {
+				sb.WriteByte(';')
+			}
+		}
+		return sb.String(), "space_only"
+	case 4:
+		// a separator rune inside a token: sel<sep>ect, or<sep>ders, '$.a<sep>b', 1<sep>0m
+		q := Gen(rng)
+		toks := append([]Tok(nil), q.Toks...)
+		for k := 1 + rng.Intn(3); k > 0; k-- {
+			i := rng.Intn(len(toks))
+			t := toks[i].T
+			cut := 0
+			if len(t) > 1 {
+				cut = 1 + rng.Intn(len(t)-1)
+			}
+			toks[i].T = t[:cut] + ss.sep(rng, anyRune, &used) + t[cut:]
+		}
+		return Q{Toks: toks}.String(), "space_inside_token"
+	default:
+		// a spaced statement followed by a dangling clause keyword and a separator
+		s := Gen(rng).WithSpaces(rng, ss, rng.Intn(2) == 0).Text
+		kw := pick(rng, []string{"group by", "order by", "join", "left join", "on", "where", "limit", "last", "as", "explain", "within", "and"})
+		return s + ss.sep(rng, anyRune, &used) + kw + pick(rng, []string{"", ss.sep(rng, anyRune, &used), ss.sep(rng, anyRune, &used) + "x"}), "space_dangling"
+	}
+}
